@@ -64,8 +64,31 @@ def entry_points(text, compiled, env=None):
     async def acollect(ait):
         return [m async for m in ait]
 
+    def shifted(v):
+        """a document of the same shape with other values"""
+        if isinstance(v, dict):
+            return {k: shifted(x) for k, x in v.items()}
+        if isinstance(v, list):
+            return [shifted(x) for x in v]
+        if isinstance(v, bool) or v is None:
+            return v
+        if isinstance(v, (int, float)):
+            return v + 1000
+        if isinstance(v, str):
+            return v + "~"
+        return v
+
+    def interleaved(d, c):
+        # two lazy evaluations of the same compiled query advanced alternately: the other one, over another document,
+        # must not show in this one's matches
+        import itertools
+        a = compiled.finditer(d, filter_context=c)
+        b = compiled.finditer(shifted(d) if isinstance(d, (dict, list)) else d, filter_context=c)
+        return pv([x for x, _ in itertools.zip_longest(a, b) if x is not None])
+
     eps = {
         "compiled.finditer": lambda d, c: pv(compiled.finditer(d, filter_context=c)),
+        "compiled.finditer, advanced alternately with another evaluation of the same compiled query": interleaved,
         "compiled.findall:values": lambda d, c: [core.canon(v) for v in compiled.findall(d, filter_context=c)],
         "compiled.match:first": lambda d, c: (lambda m: [] if m is None else pv([m]))(compiled.match(d, filter_context=c)),
         "compiled.query": lambda d, c: pv(compiled.query(d, filter_context=c)),
